@@ -273,7 +273,7 @@ func checkC06(w *Worker) {
 		}
 	})
 	// every special scenario (harness/specials.go) x bounds taken from its own days x every period-aware command
-	c06Specials := specialScenarios()
+	c06Specials := specialsFor(w.Tier)
 	w.Explore("special-scenarios", ExploreOpts{ShardDepth: 3}, func(x *Exec) {
 		sc := c06Specials[x.Choose(len(c06Specials), "input:scenario")]
 		cmd := c06Cmds[x.Choose(len(c06Cmds), "input:command")]
